@@ -6,10 +6,13 @@ import (
 	"pgregory.net/rapid"
 )
 
-// GenChannels draws a channel count >= 1: mostly 1..8, sometimes up to 64.
+// GenChannels draws a channel count >= 1: mostly 1..8, sometimes up to 64, rarely 65..140 or around 256 and 512.
 func GenChannels(t *rapid.T) int {
 	if Chance(t, "chanHuge", 1, 60) { // more channels than a machine word has bits
 		return rapid.IntRange(65, 140).Draw(t, "channelsHuge")
+	}
+	if Chance(t, "chanByte", 1, 80) { // around the range of a byte
+		return rapid.SampledFrom([]int{255, 256, 257, 511, 512, 513}).Draw(t, "channelsByte")
 	}
 	if rapid.IntRange(0, 19).Draw(t, "chanSel") == 0 {
 		return rapid.IntRange(9, 64).Draw(t, "channelsBig")
